@@ -177,7 +177,7 @@ def broken_theorems(prop, log):
     return out
 
 
-def audit(prop, force=False):
+def audit(prop, force=False, lock=True):
     """#print axioms for every theorem of Props/<prop>; forbidden-token grep over the import closure.
     Returns dict(theorems=[...], axioms={thm: [...]}, bad_axioms=[...], forbidden=[...])."""
     names = theorem_names(prop)
@@ -204,11 +204,12 @@ def audit(prop, force=False):
             f.write(f"import {pm}\n")
         for n in names:
             f.write(f"#print axioms {n}\n")
-    lock = _lock()
+    lk = _lock() if lock else None
     try:
         p = subprocess.run(["lake", "env", "lean", af], cwd=LEAN, capture_output=True, text=True, timeout=1800)
     finally:
-        lock.close()
+        if lk is not None:
+            lk.close()
     out = p.stdout + p.stderr
     axioms = {}
     for m in re.finditer(r"'([^']+)' depends on axioms: \[([^\]]*)\]", out, flags=re.S):
